@@ -9,6 +9,8 @@ kind "structural": an obligation discharged by the extractor itself (stated as s
 
 UNITS = {
     "C08": [
+        dict(kind="structural", name="c08_chunker_ranges", check="chunker_ranges", file="crates/klukai-agent/src/api/peer/mod.rs", fn="handle_need",
+             trusted=["syntactic comparison of the SQL parameter bindings with the chunker's (start, end) arguments (vx/structural.py chunker_ranges)"]),
         dict(kind="verus", name="c08_send", template="specs/c05_send.vrs",
          under_contract=["send_change_chunks"], vacuity=["send_change_chunks"],
          assumptions=["same template as unit c05_send: the whole send_change_chunks against the chunker's proved contract — what is SENT for a version/partial request tiles the requested range up to last_seq (consecutive ranges, first at the requested start, last ending at last_seq), the only skipped chunk being the empty whole-version one"]),
@@ -31,6 +33,11 @@ UNITS = {
 }
 
 UNITS["C02"] = [
+    dict(kind="structural", name="c02_seqmerge_params", check="seqmerge_params", file="crates/klukai-agent/src/agent/util.rs", fn="process_incomplete_version",
+         trusted=["rusqlite named_params! binds by name"]),
+    dict(kind="verus", name="c02_seqmerge", template="specs/c03_seqmerge.vrs",
+         under_contract=["frag_merge", "frag_write_back"], vacuity=["frag_merge", "frag_write_back"],
+         assumptions=["same template as unit c03_seqmerge: the persisted partial record (one row per maximal received range) equals the in-memory one after every chunk"]),
     dict(kind="structural", name="c02_commit_order", check="persist_before_publish", file="crates/klukai-agent/src/agent/util.rs", fn="process_multiple_changes",
          fns=["process_multiple_changes", "process_fully_buffered_changes"],
          trusted=["rusqlite: a Transaction dropped without commit() rolls back"]),
@@ -172,6 +179,8 @@ UNITS["C16"] = [
 ]
 
 UNITS["C05"] = [
+    dict(kind="structural", name="c05_chunker_ranges", check="chunker_ranges", file="crates/klukai-agent/src/api/peer/mod.rs", fn="handle_need",
+         trusted=["syntactic comparison of the SQL parameter bindings with the chunker's (start, end) arguments (vx/structural.py chunker_ranges)"]),
     dict(kind="structural", name="c05_snapshot", check="single_snapshot", file="crates/klukai-agent/src/api/peer/mod.rs", fn="handle_need",
          trusted=["rusqlite Connection::transaction opens a DEFERRED transaction whose first read pins one WAL snapshot until it is dropped (SQLite)"]),
     dict(kind="depcheck", name="depcheck_c05"),
@@ -190,6 +199,13 @@ UNITS["C05"] = [
 ]
 
 UNITS["C03"] = [
+    dict(kind="structural", name="c03_seqmerge_params", check="seqmerge_params", file="crates/klukai-agent/src/agent/util.rs", fn="process_incomplete_version",
+         trusted=["rusqlite named_params! binds by name"]),
+    dict(kind="verus", name="c03_ingest", template="specs/c10_ingest.vrs",
+         under_contract=["frag_drop_oldest", "frag_suppress", "frag_cache_insert"], vacuity=["frag_drop_oldest", "frag_suppress", "frag_cache_insert"],
+         assumptions=["same template as unit c10_ingest: a chunk shed from the queue is forgotten by the seen-cache (its own seqs, under its own actor), so that the peer's answer to the resulting partial need is accepted and the transaction can complete"]),
+    dict(kind="structural", name="c03_chunker_ranges", check="chunker_ranges", file="crates/klukai-agent/src/api/peer/mod.rs", fn="handle_need",
+         trusted=["syntactic comparison of the SQL parameter bindings with the chunker's (start, end) arguments (vx/structural.py chunker_ranges)"]),
     dict(kind="structural", name="c03_commit_order", check="persist_before_publish", file="crates/klukai-agent/src/agent/util.rs", fn="process_multiple_changes",
          fns=["process_multiple_changes", "process_fully_buffered_changes"],
          trusted=["rusqlite: a Transaction dropped without commit() rolls back"]),
@@ -202,7 +218,7 @@ UNITS["C03"] = [
     dict(kind="structural", name="c03_sql_scoping", check="sql_actor_scoping", file="crates/klukai-agent/src/agent/util.rs",
          trusted=["heuristic SQL reading: WHERE levels are split at parenthesised sub-SELECTs; only the presence of an actor constraint is checked, not its parameter binding"]),
     dict(kind="verus", name="c03_seqmerge", template="specs/c03_seqmerge.vrs",
-         under_contract=["frag_merge", "lemma_sql_merges_iff_overlap_or_adjacent", "lemma_interval_is_one_range"], vacuity=["frag_merge"],
+         under_contract=["frag_merge", "frag_write_back", "lemma_sql_merges_iff_overlap_or_adjacent", "lemma_interval_is_one_range"], vacuity=["frag_merge", "frag_write_back"],
          assumptions=["the DELETE … RETURNING returns exactly the stored rows satisfying its WHERE clause (SQLite); stored rows are well-ordered and non-negative",
                       "SQL WHERE fragment translated by vx/sqlpred.py (a bare column in a condition is read as `!= 0`)"]),
     dict(kind="verus", name="c03_triggers", template="specs/c03_triggers.vrs",
